@@ -919,3 +919,43 @@ C02.kf_cases = _kf_c02
 C03.kf_cases = _kf_c03
 C28.kf_cases = _kf_c28
 C34.kf_cases = _kf_c34
+
+
+from .families import fltfam  # noqa: E402
+
+
+@_register
+class C05(Spec):
+    check_id = 'C05'
+    family = 'flt'
+    title = 'secure floating-point arithmetic approximates float arithmetic'
+    technique = 'deterministic simulation + exact rational interval reference (relative tolerances of the property composed)'
+    quick = {'runs': 2500, 'wall': 85}
+    thorough = {'runs': 100000, 'wall': 900}
+    per_run_timeout = 300
+
+    def make_case(self, seed, tier):
+        rng = random.Random(f'C05/{seed}')
+        cfg = sample_cfg(rng, tier, m_max=3 if tier == 'quick' else 5)
+        prog = fltfam.gen(rng, cfg, tier, kf={7: ('flt_add_zero',), 13: ('flt_div_edge',)}.get(seed % 20, ()))
+        return {'family': 'flt', 'cfg': cfg.to_json(), 'prog': prog, 'seed': seed, 'opts': {'step_cap': 3000000}}
+
+    def sample(self, case, res):
+        return {'seed': case['seed'], 'cfg': case['cfg'], 'prog': case['prog'], 'results': repr(res.results)[:200]}
+
+
+def _kf_c05(self, tier):
+    return [
+        {'family': 'flt', 'cfg': _cfgj(1, 0),
+         'prog': {'family': 'flt', 'type': {'s': 10, 'e': 6},
+                  'stmts': [['input', 'x1', [], {'value': -0.0011358261108398438, 'sender': 0, 'dummy': 1.5}],
+                            ['input', 'x2', [], {'value': 0.0, 'sender': 0, 'dummy': 1.5}], ['sub', 'x3', ['x2', 'x1'], {}]],
+                  'outputs': ['x3'], 'receivers': None, 'tags': ['flt_add_zero']}},
+        {'family': 'flt', 'cfg': _cfgj(2, 0, no_prss=True),
+         'prog': {'family': 'flt', 'type': {'s': 8, 'e': 8},
+                  'stmts': [['input', 'x1', [], {'value': 1.0, 'sender': 0, 'dummy': 1.5}], ['reciprocal', 'x4', ['x1'], {}]],
+                  'outputs': ['x4'], 'receivers': None, 'tags': ['flt_div_edge']}},
+    ]
+
+
+C05.kf_cases = _kf_c05
